@@ -644,20 +644,54 @@ def rebase(snapshot, ghost_before, current):
                 for k_, v_ in list(moved.items()):
                     if v_ == ca and k_ != cb: del moved[k_]
                 moved[cb] = ca; taken_a.add(ca)
-    toks = []; pending = []; edits = []
+    items = []; pending = []; edits = []          # items: ('g', ghost run) | ('r', real token)
+    def G_(run):
+        if run: items.append(('g', list(run)))
     for tag, a0, a1, b0, b1 in ops:
         if tag == 'equal':
             for k in range(a1 - a0):
-                if (b0 + k) in moved: toks += pending + ghost_before[moved[b0 + k]] + [current[b0 + k]]
-                else: toks += pending + (ghost_before[a0 + k] if (a0 + k) not in taken_a else []) + [current[b0 + k]]
+                for r_ in pending: G_(r_)
                 pending = []
+                if (b0 + k) in moved: G_(ghost_before[moved[b0 + k]])
+                elif (a0 + k) not in taken_a: G_(ghost_before[a0 + k])
+                items.append(('r', current[b0 + k]))
         else:
             edits.append({'op': tag, 'was': ' '.join(snapshot[a0:a1]), 'now': ' '.join(current[b0:b1]),
                           'line': next((t.line for t in current[b0:b1] if getattr(t, 'line', None)), None)})
             for k in range(a0, a1):
-                if k not in taken_a: pending += ghost_before[k]
+                if k not in taken_a and ghost_before[k]: pending.append(ghost_before[k])
             for bi in range(b0, b1):
-                if bi in moved: toks += ghost_before[moved[bi]]
-                toks.append(current[bi])
-    toks += pending + ghost_before[len(snapshot)]
+                if bi in moved: G_(ghost_before[moved[bi]])
+                items.append(('r', current[bi]))
+    for r_ in pending: G_(r_)
+    G_(ghost_before[len(snapshot)])
+    # statement-level ghost (proof blocks, ghost lets, asserts) must sit at a statement boundary: when the token it was attached
+    # to was edited (renamed, or tokens inserted before it) the run would land in mid-statement; move it back to the
+    # nearest preceding boundary (after `;` `{` `}`)
+    STMT = ('proof', 'assert', 'let', 'hide', 'reveal', 'reveal_with_fuel')
+    i_ = 0
+    while i_ < len(items):
+        kind, val = items[i_]
+        if kind == 'g' and str(val[0]) in STMT:
+            j = i_
+            while j > 0 and items[j - 1][0] == 'g': j -= 1       # skip ghost neighbours
+            if j > 0 and str(items[j - 1][1]) not in (';', '{', '}'):
+                d = 0; k = j - 1
+                while k >= 0:
+                    if items[k][0] == 'r':
+                        t_ = str(items[k][1])
+                        if t_ in (')', ']'): d += 1
+                        elif t_ in ('(', '['): d -= 1
+                        elif t_ in (';', '{', '}') and d <= 0: break
+                    k -= 1
+                if k >= 0:
+                    run = items.pop(i_)
+                    kk = k + 1
+                    while kk < len(items) and items[kk][0] == 'g' and kk < i_: kk += 1   # after ghost runs already at that boundary
+                    items.insert(kk, run)
+        i_ += 1
+    toks = []
+    for kind, val in items:
+        if kind == 'g': toks += val
+        else: toks.append(val)
     return toks, len(edits), edits
